@@ -1956,12 +1956,19 @@ func (h *fsmHandler) recvMessageloop(ctx context.Context, conn net.Conn, holdtim
 						}
 					}
 
-					table.UpdatePathAttrs4ByteAs(h.fsm.logger, body)
+					if h.fsm.twoByteAsTrans {
+						table.UpdatePathAttrs4ByteAs(h.fsm.logger, body)
 
-					if err = table.UpdatePathAggregator4ByteAs(body); err != nil {
-						m := err.(*bgp.MessageError)
-						nonblockSendChannel(h.fsm.notification, bgp.NewBGPNotificationMessage(m.TypeCode, m.SubTypeCode, m.Data))
-						return
+						if err = table.UpdatePathAggregator4ByteAs(body); err != nil {
+							m := err.(*bgp.MessageError)
+							nonblockSendChannel(h.fsm.notification, bgp.NewBGPNotificationMessage(m.TypeCode, m.SubTypeCode, m.Data))
+							return
+						}
+					} else {
+						// the peer speaks 4-octet AS numbers: its AS_PATH and
+						// AGGREGATOR are complete, AS4_PATH / AS4_AGGREGATOR
+						// are discarded (RFC 6793 Section 6), not merged in
+						table.DiscardAs4Attrs(body)
 					}
 					fallthrough
 				case bgp.BGP_MSG_KEEPALIVE:
